@@ -559,5 +559,176 @@ Proof.
   - split; [exact I1 | lia].
 Qed.
 
+(* ---- RegisterUpvalue: a new node is linked into the open list ---- *)
 End Instr.
+
+Inductive open_seg (h : heap) : option N -> list N -> option N -> Prop :=
+| os_nil o : open_seg h o [] o
+| os_cons a u l loc o' : hget h a = Some (OUp u) -> u_loc u = Some loc -> open_seg h (u_next u) l o' ->
+                         open_seg h (Some a) (a :: l) o'.
+
+Lemma seg_chain_app h o l1 o' l2 : open_seg h o l1 o' -> open_chain h o' l2 -> open_chain h o (l1 ++ l2).
+Proof. induction 1; intros H2; cbn [app]; [exact H2|]. econstructor; eauto. Qed.
+
+Lemma seg_snoc h o l pa pu loc : open_seg h o l (Some pa) -> hget h pa = Some (OUp pu) -> u_loc pu = Some loc ->
+  open_seg h o (l ++ [pa]) (u_next pu).
+Proof.
+  intros H Hp Hl. remember (Some pa) as o' eqn:Eo. induction H; subst; cbn [app].
+  - econstructor; eauto. constructor.
+  - econstructor; eauto.
+Qed.
+
+Lemma seg_snoc_inv h : forall l o pa o', open_seg h o (l ++ [pa]) o' ->
+  exists pu loc, open_seg h o l (Some pa) /\ hget h pa = Some (OUp pu) /\ u_loc pu = Some loc /\ u_next pu = o'.
+Proof.
+  induction l as [|x l IH]; intros o pa o' H; cbn [app] in H.
+  - inversion H as [|a u l' loc o2 Ha Hl Hs]; subst. inversion Hs; subst. exists u, loc. repeat split; auto. constructor.
+  - inversion H as [|a u l' loc o2 Ha Hl Hs]; subst. destruct (IH _ _ _ Hs) as (pu & lc & A & B & C & D).
+    exists pu, lc. repeat split; auto. econstructor; eauto.
+Qed.
+
+Lemma open_seg_hset h o l o' a x : open_seg h o l o' -> ~ In a l -> open_seg (hset h a x) o l o'.
+Proof.
+  induction 1 as [|b u l loc o2 Hb Hloc Hs IH]; intros Hn; [constructor|].
+  econstructor; [| exact Hloc |].
+  - rewrite hget_hset_other; [exact Hb|]. intros ->. apply Hn. left; reflexivity.
+  - apply IH. intros Hin. apply Hn. right; exact Hin.
+Qed.
+Lemma open_seg_app h o l o' x : open_seg h o l o' -> open_seg (h ++ x) o l o'.
+Proof.
+  induction 1 as [|b u l loc o2 Hb Hloc Hs IH]; [constructor|].
+  econstructor; [| exact Hloc | exact IH]. rewrite hget_app_old; [exact Hb | congruence].
+Qed.
+
+Lemma walk_open_spec h loc : forall fuel prev cur l prev' cur',
+  open_chain h cur l -> walk_open fuel h loc prev cur = WOk prev' cur' ->
+  exists l1 l2, l = l1 ++ l2 /\ open_seg h cur l1 cur' /\ open_chain h cur' l2 /\ (l1 = [] /\ prev' = prev \/ exists l0 pa, l1 = l0 ++ [pa] /\ prev' = Some pa).
+Proof.
+  induction fuel as [|f IH]; intros prev cur l prev' cur' Hch Hw; cbn [walk_open] in Hw; [discriminate|].
+  inversion Hch as [Ho|a u l' lc Ha Hlc Hch' Ho Hl]; subst.
+  - inversion Hw; subst. exists [], []. split; [reflexivity|]. split; [constructor|]. split; [constructor|]. left; auto.
+  - rewrite Ha, Hlc in Hw. destruct (lc <=? loc).
+    + inversion Hw; subst. exists [], (a :: l'). split; [reflexivity|]. split; [constructor|]. split; [exact Hch|]. left; auto.
+    + destruct (IH _ _ _ _ _ Hch' Hw) as (l1 & l2 & -> & Hs & Hc2 & Hd).
+      exists (a :: l1), l2. split; [reflexivity|]. split; [econstructor; eauto|]. split; [exact Hc2|].
+      right. destruct Hd as [[-> ->]|(l0 & pa & -> & ->)]; [exists [], a | exists (a :: l0), pa]; auto.
+Qed.
+
+Lemma nodup_insert {A} (l0 : list A) x y r : NoDup (l0 ++ x :: r) -> ~ In y (l0 ++ x :: r) -> NoDup (l0 ++ x :: y :: r).
+Proof.
+  induction l0 as [|a l0 IH]; cbn [app]; intros Hnd Hy.
+  - inversion Hnd as [|x' r' Hx Hr]; subst. constructor.
+    + intros [->|H]; [apply Hy; left; reflexivity | contradiction].
+    + constructor; [intros H; apply Hy; right; exact H | exact Hr].
+  - inversion Hnd as [|a' r' Ha Hr]; subst. constructor.
+    + intros H. apply in_app_or in H. destruct H as [H|[->|[->|H]]].
+      * apply Ha. apply in_or_app. left; exact H.
+      * apply Ha. apply in_or_app. right; left; reflexivity.
+      * apply Hy. left; reflexivity.
+      * apply Ha. apply in_or_app. right; right; exact H.
+    + apply IH; [exact Hr | intros H; apply Hy; right; exact H].
+Qed.
+
+Section Instr45.
+Variable ip0 : N.
+Variable s : state.
+Hypothesis Hi : vm_inv0 s.
+Hypothesis Hc : st_calls s <> [].
+
+(* appending a live upvalue address to the list of a closure *)
+Lemma inv_clo_append s1 ca ch car cups x : vm_inv0 s1 -> hget (st_heap s1) ca = Some (OClo ch car cups) ->
+  hget (st_heap s1) x <> None -> vm_inv0 (set_heap s1 (hset (st_heap s1) ca (OClo ch car (cups ++ [x])))).
+Proof.
+  intros I1 Eca Hx. apply (inv_hset P start s1 ca (OClo ch car cups)); [exact I1 | exact Eca | | |].
+  - intros ua Hua. apply in_app_or in Hua. destruct Hua as [Hua|[<-|[]]]; [|exact Hx].
+    apply (vi_heap P start s1 I1 ca _ Eca). exact Hua.
+  - intros hd ar ups E. inversion E; subst. eauto.
+  - intros; discriminate.
+Qed.
+
+Lemma pv_i_45 ip : ipok (ip + 2) -> res_ok s (i_45 P 45 ip0 ip s).
+Proof.
+  intros Hip. unfold i_45.
+  destruct (read_le (p_code P) ip 1) as [index|]; [|exact I]. destruct (read_le (p_code P) (ip + 1) 1) as [is_local|]; [|exact I].
+  cbv zeta. destruct (spop s) as [s1 cv] eqn:E1.
+  destruct (inv_spop P start _ _ _ E1 Hi) as (I1 & _ & Hh1 & Hc1 & _).
+  apply (res_ok_mono s s1); [rewrite Hh1; lia|].
+  assert (H1 : st_ok s1 s1) by (apply st_ok_refl; exact I1).
+  assert (Hcs : st_calls s1 <> []) by (rewrite Hc1; exact Hc).
+  destruct cv as [| | |ca]; try exact H1.
+  destruct (hget (st_heap s1) ca) as [[| | | |ch car cups|]|] eqn:Eca; try exact H1; try exact I.
+  assert (Hdone : forall x, hget (st_heap s1) x <> None ->
+            res_ok s1 (SNext (ip + 2) (set_heap s1 (hset (st_heap s1) ca (OClo ch car (cups ++ [x])))))).
+  { intros x Hx. cbn [res_ok]. split; [split; [apply inv_clo_append; assumption|] | split; [exact Hcs | exact Hip]].
+    cbn [set_heap st_heap]. rewrite hset_length. apply Nat.le_refl. }
+  destruct (negb (is_local =? 0)%N).
+  - destruct (top_offset s1) as [off|]; [|exact I].
+    destruct (scount s1 <=? off + N.to_nat index); [exact I|].
+    set (loc := off + N.to_nat index).
+    destruct (vi_open P start s1 I1) as (l & Hch & Hnd).
+    destruct (walk_open _ (st_heap s1) loc None (st_open s1)) as [prev cur|] eqn:Ew; [|exact I].
+    destruct (walk_open_spec _ _ _ _ _ _ _ _ Hch Ew) as (l1 & l2 & -> & Hseg & Hch2 & Hd).
+    match goal with |- res_ok s1 (if ?c then _ else _) => destruct c eqn:Esame end.
+    + destruct cur as [a|]; [|exact I]. apply Hdone.
+      destruct (hget (st_heap s1) a); [discriminate | discriminate].
+    + (* a new node *)
+      destruct (salloc s1 (OUp (mkUp (Some loc) VNil cur))) as [s2 ua] eqn:E2.
+      destruct (inv_salloc P start _ _ _ _ E2 I1 I) as (I2 & Hh2 & Hua & Hc2 & Hst2).
+      assert (Hopen2 : st_open s2 = st_open s1).
+      { unfold salloc, halloc in E2. inversion E2; subst. reflexivity. }
+      assert (Hlive : forall a, In a (l1 ++ l2) -> hget (st_heap s1) a <> None) by (apply (open_chain_live _ _ _ Hch)).
+      assert (Hfresh : ~ In ua (l1 ++ l2)).
+      { intros Hin. apply Hlive, hget_lt in Hin. rewrite Hua, Nat2N.id in Hin. lia. }
+      assert (Hua2 : hget (st_heap s2) ua = Some (OUp (mkUp (Some loc) VNil cur))) by (rewrite Hh2, Hua; apply hget_app_new).
+      assert (Eca2 : hget (st_heap s2) ca = Some (OClo ch car cups)) by (rewrite Hh2, hget_app_old; [exact Eca | congruence]).
+      (* the state after linking *)
+      match goal with |- res_ok s1 (SNext _ (set_heap ?x _)) => set (s3 := x) end.
+      assert (H3 : vm_inv0 s3 /\ hget (st_heap s3) ca = Some (OClo ch car cups) /\ hget (st_heap s3) ua <> None /\
+                   length (st_heap s3) = length (st_heap s2) /\ st_calls s3 = st_calls s2).
+      { clear Hua. destruct Hd as [[-> ->]|(l0 & pa & -> & ->)].
+        - (* new head *)
+          inversion Hseg; subst. unfold s3. splits; [| exact Eca2 | cbn [set_open st_heap]; congruence | reflexivity | reflexivity].
+          apply (inv_eq P start (set_open (set_heap s2 (st_heap s2)) (Some ua))); try reflexivity.
+          apply inv_heap_change; [exact I2 | apply Nat.le_refl | apply (vi_heap P start s2 I2) | intros; eauto |].
+          exists (ua :: l2). split; [|constructor; [exact Hfresh | exact Hnd]].
+          econstructor; [exact Hua2 | reflexivity |]. cbn [u_next]. rewrite Hh2. apply open_chain_app. exact Hch2.
+        - (* linked behind pa *)
+          destruct (seg_snoc_inv _ _ _ _ _ Hseg) as (pu & lc & Hs0 & Hpa & Hplc & Hpn).
+          assert (Hpa2 : hget (st_heap s2) pa = Some (OUp pu)) by (rewrite Hh2, hget_app_old; [exact Hpa | congruence]).
+          unfold s3. rewrite Hpa2.
+          rewrite <- app_assoc in Hnd, Hfresh. cbn [app] in Hnd, Hfresh.
+          assert (Hne : pa <> ua).
+          { intros ->. apply Hfresh. apply in_or_app. right; left; reflexivity. }
+          assert (Hpa0 : ~ In pa l0 /\ ~ In pa l2).
+          { apply NoDup_remove_2 in Hnd. split; intros H; apply Hnd; apply in_or_app; [left | right]; exact H. }
+          splits; cbn [set_heap st_heap st_calls];
+            [| rewrite hget_hset_other; [exact Eca2 | intros ->; congruence]
+             | rewrite hget_hset_other; [congruence | exact Hne]
+             | apply hset_length | reflexivity ].
+          apply (inv_eq P start (set_open (set_heap s2 (hset (st_heap s2) pa (OUp (mkUp (u_loc pu) (u_val pu) (Some ua)))))
+                                  (st_open s2))); try reflexivity.
+          apply inv_heap_change; [exact I2 | rewrite hset_length; apply Nat.le_refl | | |].
+          + apply heap_closed_hset; [apply (vi_heap P start s2 I2)|]. cbn [obj_closed u_val].
+            apply (vi_heap P start s2 I2 pa _ Hpa2).
+          + intros x hd ar ups E. exists ups. rewrite hget_hset_other; [exact E | intros ->; congruence].
+          + exists (l0 ++ pa :: ua :: l2). split; [|apply nodup_insert; assumption].
+            rewrite Hopen2. apply (seg_chain_app _ _ l0 (Some pa)).
+            * apply open_seg_hset; [rewrite Hh2; apply open_seg_app; exact Hs0 | apply Hpa0].
+            * econstructor; [apply hget_hset_same; congruence | exact Hplc |]. cbn [u_next].
+              econstructor; [rewrite hget_hset_other; [exact Hua2 | exact Hne] | reflexivity |]. cbn [u_next].
+              apply open_chain_hset; [rewrite Hh2; apply open_chain_app; rewrite <- Hpn in Hch2; rewrite Hpn in *; exact Hch2 | apply Hpa0]. }
+      destruct H3 as (I3 & Eca3 & Hua3 & Hl3 & Hc3).
+      cbn [res_ok]. split; [split; [apply inv_clo_append; assumption|] | split; [|exact Hip]].
+      * cbn [set_heap st_heap]. rewrite hset_length, Hl3, Hh2, app_length. lia.
+      * cbn [set_heap st_calls]. rewrite Hc3, Hc2. exact Hcs.
+  - destruct (st_calls s1) as [|fr rest] eqn:Ec; [exact I|].
+    destruct (fr_clo fr) as [fa|]; [|exact I].
+    destruct (hget (st_heap s1) fa) as [[| | | |fh far fups|]|] eqn:Efa; try exact I.
+    destruct (nth_error fups (N.to_nat index)) as [ua|] eqn:En; [|exact I].
+    assert (Hx : hget (st_heap s1) ua <> None).
+    { apply (vi_heap P start s1 I1 fa _ Efa). eapply nth_error_In; eauto. }
+    exact (Hdone ua Hx).
+Qed.
+
+End Instr45.
 End Pres.
